@@ -577,8 +577,29 @@ def check_e9(ctx, rep):
     rep.note('E9.table_entries_unused', sorted('%s:%s' % k for k in set(E9_TABLE) - seen))
 
 
+RUNS_BASIC = ('self._store_line', 'self.interpreter.loop', 'self.parser.parse_expression', 'self.tokeniser.tokenise_line',
+              'self._auto_step', 'self._show_prompt', 'self.console.read_line')
+
+
+def check_e10(ctx, rep):
+    """The three entry points that run BASIC code do all of it inside `with self._handle_exceptions()`."""
+    n = 0
+    for name in ('execute', 'evaluate', 'interact'):
+        fn = ctx.fn(IMPL + ':Implementation.' + name)
+        fl = ctx.flow(fn)
+        for c in own_nodes(fn):
+            if isinstance(c, ast.Call) and norm(c.func) in RUNS_BASIC:
+                n += 1
+                inside = any('_handle_exceptions' in w_ for w_ in fl.with_items(c))
+                rep.ob('E10.entry-point-inside-boundary', 'Implementation.%s: %s' % (name, short(c, 50)), inside,
+                       'runs outside `with self._handle_exceptions()`: a BASIC error raised here leaves Session.%s as a raw BASICError instead of an error message' % name,
+                       ctx.where(c))
+    rep.floor('E10.entry-point-inside-boundary', n, 8, 'calls that run BASIC code in execute / evaluate / interact')
+
+
 def check(ctx, rep):
     check_e9(ctx, rep)
+    check_e10(ctx, rep)
     check_e1(ctx, rep)
     check_e2(ctx, rep)
     check_e3(ctx, rep)
@@ -617,6 +638,7 @@ def variants(ctx):
         Va('imp-operand-unchecked', 'break', V,
            in_fn('imp_', lambda fn: mu.replace_expr(fn, mu.text_is('to_integer(right)'), 'right.to_integer()')), expect='E8'),
         Va('float-safe-narrowed', 'break', V, in_fn('float_safe', _only_arithmetic), expect='E3.float_safe'),
+        Va('store-line-outside-boundary', 'break', IMPL, in_fn('Implementation.execute', _store_line_first), expect='E10'),
         Va('unprotect-returns-unbound', 'break', 'pcbasic/basic/converter/protect.py',
            in_fn('unprotect', lambda fn: mu.remove_stmt(fn, mu.text_is('c = 0'))), expect='E9'),
         Va('con-append-unbound', 'break', 'pcbasic/basic/devices/files.py',
@@ -684,3 +706,15 @@ def _only_arithmetic(fn):
             n.type = ast.Name(id='ArithmeticError', ctx=ast.Load())
             return True
     return False
+
+
+def _store_line_first(fn):
+    w = [st for st in fn.body if isinstance(st, ast.With)]
+    if len(w) != 1:
+        return False
+    st = [x for x in w[0].body if '_store_line' in norm(x)]
+    if len(st) != 1:
+        return False
+    w[0].body.remove(st[0])
+    fn.body.insert(fn.body.index(w[0]), st[0])
+    return True
